@@ -19,14 +19,17 @@ import (
 // Classification of every method of filesystem.FS for the two sweeps.
 //
 // closed sweep (after Close()):
-//   cCond  direct accessor: must fail with the 'failed condition' kind
-//   cFail  needs the archive (composite or mutating call): must fail, kind is a don't-care
-//   cBool  bool-only call: must answer false
-//   cDC    does not (clearly) need the archive: called, result ignored
+//
+//	cCond  direct accessor: must fail with the 'failed condition' kind
+//	cFail  needs the archive (composite or mutating call): must fail, kind is a don't-care
+//	cBool  bool-only call: must answer false
+//	cDC    does not (clearly) need the archive: called, result ignored
+//
 // read-only sweep (before Close()):
-//   roMut   a call whose arguments require a real mutation: must return an error, nothing may change
-//   roQuiet would mutate but swallows errors by design / crashes outside the property: not called (see main.go rule)
-//   roNone  not a mutating call
+//
+//	roMut   a call whose arguments require a real mutation: must return an error, nothing may change
+//	roQuiet would mutate but swallows errors by design / crashes outside the property: not called (see main.go rule)
+//	roNone  not a mutating call
 const (
 	cCond = iota
 	cFail
@@ -94,7 +97,11 @@ func specs() []spec {
 		// ---- open family
 		{"Open", cCond, roNone, func(e *env) outcome { f, err := e.fs.Open(e.f); closeIf(f, err); return oe(err) }},
 		{"GenericOpen", cCond, roNone, func(e *env) outcome { f, err := e.fs.GenericOpen(e.f); closeIf(f, err); return oe(err) }},
-		{"OpenFile", cCond, roNone, func(e *env) outcome { f, err := e.fs.OpenFile(e.f, os.O_RDONLY, 0o600); closeIf(f, err); return oe(err) }},
+		{"OpenFile", cCond, roNone, func(e *env) outcome {
+			f, err := e.fs.OpenFile(e.f, os.O_RDONLY, 0o600)
+			closeIf(f, err)
+			return oe(err)
+		}},
 		{"OpenFile#O_RDWR", cCond, roMut, func(e *env) outcome { f, err := e.fs.OpenFile(e.f, os.O_RDWR, 0o600); closeIf(f, err); return oe(err) }},
 		{"OpenFile#O_WRONLY|O_APPEND", cCond, roMut, func(e *env) outcome {
 			f, err := e.fs.OpenFile(e.f, os.O_WRONLY|os.O_APPEND, 0o600)
